@@ -169,8 +169,10 @@ def generate(prop, rng, tier):
     if prop == "C07":
         n = rng.randint(14, 40 if not big else 90)
         spec = C.gen_leaf(rng, allow_slow=rng.random() < 0.15, allow_reduce=True)
-        if spec["kind"] == "reduce" and spec["strategy"] != "recursive":
-            spec = dict(spec, strategy="recursive", regressor="stub")  # fh is per fold
+        if spec["kind"] == "reduce" and spec["strategy"] == "dirrec":
+            spec = dict(spec, strategy="recursive", regressor="stub")
+        # (direct / multioutput reductions need the horizon at fit: every fold has the same
+        # steps ahead, so both strategies are valid for them)
         if rng.random() < 0.15:
             # a composite as the forecaster under evaluation
             a_ = {"kind": "naive", "strategy": rng.choice(["last", "mean"]), "sp": 1, "window_length": None}
@@ -500,7 +502,10 @@ def execute_c07(scen):
         res.probe("no_leak_checked")
         # predict horizon == exactly the test time points
         fhv = c_pred["fh"]["v"] if c_pred.get("fh") else None
-        if fhv != [lab(t) for t in y_test.index] or c_pred["fh"]["rel"]:
+        if fhv is not None and c_pred["fh"]["rel"]:
+            # steps ahead of the fold's cutoff denote the same time points
+            fhv = [lab(y_train.index[-1]) + int(s_) for s_ in fhv]
+        if fhv != [lab(t) for t in y_test.index]:
             v("wrong_horizon", "fold %d: predict was asked for %s, the split's test points are %s"
               % (i, fhv, [lab(t) for t in y_test.index]))
             return res
@@ -588,6 +593,8 @@ def execute_c07(scen):
                           % (i2, table2.iloc[i2]["cutoff"], y.index[tr[-1]]), reused=True)
                         break
                     fhv2 = preds2[i2]["fh"]["v"] if i2 < len(preds2) and preds2[i2].get("fh") else None
+                    if fhv2 is not None and preds2[i2]["fh"]["rel"]:
+                        fhv2 = [int(y.index[tr[-1]]) + int(s_) for s_ in fhv2]
                     if fhv2 != [int(t) for t in y.index[te]]:
                         v("wrong_horizon", "second evaluation, fold %d: predict was asked for %s, the "
                           "split's test points are %s" % (i2, fhv2, [int(t) for t in y.index[te]]),
